@@ -122,7 +122,20 @@ impl<'a, T: Transport> Transferrer<'a, T> {
                                     inode,
                                     source.path.display()
                                 );
-                                notify.notified().await;
+                                // Register for the notification BEFORE looking at the state again:
+                                // notify_waiters() wakes only futures that are already registered, so a
+                                // completion landing between our read of the map and the await would
+                                // otherwise be missed and this task would wait forever.
+                                let notified = notify.notified();
+                                tokio::pin!(notified);
+                                notified.as_mut().enable();
+                                let still_in_progress = {
+                                    let map = self.hardlink_map.lock().unwrap();
+                                    matches!(map.get(&inode), Some(InodeState::InProgress(_)))
+                                };
+                                if still_in_progress {
+                                    notified.await;
+                                }
                                 // Loop back to check if it's now Completed
                                 continue;
                             }
